@@ -35,7 +35,7 @@ class C15(Check):
         "HiGHS / sympy.solve are oracles (certificate-checked exact simplex; exact Gauss-Jordan)",
     ]
     assumptions = ["floats denote exact rationals; numeric reading of the property"]
-    min_branches = {"ok": 150, "overlap": 100, "unconnected": 40, "merge": 60}
+    min_branches = {"ok": 150, "overlap": 30, "unconnected": 15, "merge": 40}
 
     def generate(self, rng, n, tier):
         out = []
